@@ -55,7 +55,7 @@ def _job(args):
         isteps = busdiff.dump_steps(steps)
         return {"seed": seed, "ops": [busdiff.show_op(o) for o in ops], "stats": stats, "diff": diff,
                 "isteps": [({str(k): v for k, v in per.items()}, sorted(cl)) for per, cl in isteps],
-                "unique": {str(k): v for k, v in unique.items()}, "died": died}
+                "unique": {str(k): v for k, v in unique.items()}, "died": died, "fdcounts": list(busdiff.LAST_RUN.get("fdcounts", []))}
     except InfraError as e:
         return {"seed": seed, "infra": str(e)}
     except Exception as e:
@@ -89,6 +89,7 @@ def run_histories(ctx, n_hist, n_ops, oracle, gen_kw=None, policy=busdiff.SESSIO
         deliveries += sum(len(v) for per, _ in steps for v in per.values())
         closes += sum(len(cl) for _, cl in steps)
         tr = Trace(ops, steps, {int(k): v for k, v in r["unique"].items()})
+        tr.fdcounts = r.get("fdcounts", [])
         bad = oracle(tr) if oracle else []
         unlisted = [(c, t) for c, t in bad if c not in findings]
         for c, t in bad:
